@@ -1,7 +1,9 @@
 import GontainerModel.Props.C05
+#print axioms GM.C05.scope_errors_graph
 #print axioms GM.C05.scope_errors_exact
 #print axioms GM.C05.scope_accept_iff
 #print axioms GM.C05.resolved_scope
 #print axioms GM.C05.scope_keyword_mapping
 #print axioms GM.C05.shared_once
 #print axioms GM.C05.contextual_once_per_bag
+#print axioms GM.C05.default_scope_documented
